@@ -56,22 +56,38 @@ fn shelley_encode_fixed<S: Src>(s: &mut S, kind: u8) {
     vcover!(ps && net == 15, "script credential, network 15");
 }
 
-/// value -> bytes -> value for the three fixed-size kinds
+/// accessor-level agreement of a decoded address with the bytes it came from (no re-encoding of a value whose
+/// variant is symbolic: that makes CBMC explore all six encoders)
+fn check_against_bytes(a: &Address, d: &[u8]) {
+    let hi = d[0] >> 4;
+    let k = a.kind();
+    assert!(match hi { 0 | 1 | 2 | 3 => k == AddressKind::Base, 4 | 5 => k == AddressKind::Pointer, 6 | 7 => k == AddressKind::Enterprise, _ => k == AddressKind::Reward });
+    assert!(!a.is_malformed());
+    assert!(a.network_id().unwrap() == d[0] & 0x0f);
+    let pc = a.payment_cred().unwrap();
+    assert!(pc.has_script_hash() == (d[0] & 0x10 != 0));
+    let hb = if pc.has_script_hash() { pc.to_scripthash().unwrap().to_bytes() } else { pc.to_keyhash().unwrap().to_bytes() };
+    let mut h1 = [0u8; 28];
+    h1.copy_from_slice(&d[1..29]);
+    assert!(eq28(&hb, &h1));
+    if hi <= 3 {
+        let ba = BaseAddress::from_address(a).unwrap();
+        let sc = ba.stake_cred();
+        assert!(sc.has_script_hash() == (d[0] & 0x20 != 0));
+        let sb = if sc.has_script_hash() { sc.to_scripthash().unwrap().to_bytes() } else { sc.to_keyhash().unwrap().to_bytes() };
+        let mut h2 = [0u8; 28];
+        h2.copy_from_slice(&d[29..57]);
+        assert!(eq28(&sb, &h2));
+        fg(ba);
+    }
+}
+
+/// value -> bytes -> value for the three fixed-size kinds: the decoded value equals the original
 fn shelley_roundtrip_fixed<S: Src>(s: &mut S, kind: u8) {
     let (a, net, ps, ss, h1, h2, p) = build(s, kind);
     let b = a.to_bytes();
     let a2 = Address::from_bytes(b).unwrap();
-    check_built(&a2, kind, net, ps, ss, &h1, &h2, p);
-    if kind == 0 {
-        let ba = BaseAddress::from_address(&a2).unwrap();
-        assert!(ba.stake_cred().has_script_hash() == ss);
-        let sb = if ss { ba.stake_cred().to_scripthash().unwrap().to_bytes() } else { ba.stake_cred().to_keyhash().unwrap().to_bytes() };
-        assert!(eq28(&sb, &h2));
-        assert!(ba.network_id() == net);
-        assert!(EnterpriseAddress::from_address(&a2).is_none());
-    }
-    if kind == 2 { assert!(EnterpriseAddress::from_address(&a2).is_some() && RewardAddress::from_address(&a2).is_none()); }
-    if kind == 3 { assert!(RewardAddress::from_address(&a2).is_some() && BaseAddress::from_address(&a2).is_none()); }
+    assert!(a2 == a);
     fg(a2); fg(a);
 }
 
@@ -82,13 +98,12 @@ pub fn pointer_roundtrip<S: Src>(s: &mut S) {
     check_built(&a, 1, net, ps, ss, &h1, &h2, p);
     let b = a.to_bytes();
     let a2 = Address::from_bytes(b).unwrap();
+    assert!(a2 == a);
     let pa = PointerAddress::from_address(&a2).unwrap();
     let sp = pa.stake_pointer();
     assert!(u64::from(sp.slot_bignum()) == p.0);
     assert!(u64::from(sp.tx_index_bignum()) == p.1);
     assert!(u64::from(sp.cert_index_bignum()) == p.2);
-    assert!(pa.network_id() == net);
-    assert!(pa.payment_cred().has_script_hash() == ps);
     vcover!(p.0 == u64::MAX && p.1 > (1u64 << 56) && p.2 < 128, "10-byte, 9-byte and 1-byte naturals");
     fg(a2); fg(a); fg(pa);
 }
@@ -124,8 +139,9 @@ fn ref_addr_end(d: &[u8]) -> Option<usize> {
 }
 
 /// strict stand-alone parser on every byte string of length <= 34 whose header is not Byron:
-/// never panics; accepts iff the kind's exact length; accepted => re-encoding gives the input
-/// (fixed-size kinds) — covers truncated payloads, trailing bytes, the empty string.
+/// never panics; accepts iff the kind's exact length (pointer: three terminated naturals that fit u64 and nothing
+/// after them); an accepted address reports kind, network and credentials exactly as header and payload say —
+/// covers truncated payloads, trailing bytes, unterminated naturals and the empty string.
 pub fn strict_parse_short<S: Src>(s: &mut S) {
     let buf: [u8; 34] = s.bytes();
     let len = s.below(35) as usize;
@@ -136,13 +152,15 @@ pub fn strict_parse_short<S: Src>(s: &mut S) {
     match r {
         Ok(a) => {
             assert!(exp);
-            assert!(!a.is_malformed());
-            let hi = buf[0] >> 4;
-            assert!(a.network_id().unwrap() == buf[0] & 0x0f);
-            if hi != 4 && hi != 5 {
-                let b = a.to_bytes();
-                assert!(b.len() == len);
-                assert!(b[0] == buf[0] && b[1] == buf[1] && b[len - 1] == buf[len - 1] && b[14] == buf[14]);
+            check_against_bytes(&a, &buf);
+            if buf[0] >> 4 == 4 || buf[0] >> 4 == 5 {
+                let pa = PointerAddress::from_address(&a).unwrap();
+                let sp = pa.stake_pointer();
+                let (v1, p1) = ref_varnat_dec(&buf[..len], 29).unwrap();
+                let (v2, p2) = ref_varnat_dec(&buf[..len], p1).unwrap();
+                let (v3, _) = ref_varnat_dec(&buf[..len], p2).unwrap();
+                assert!(u64::from(sp.slot_bignum()) == v1 && u64::from(sp.tx_index_bignum()) == v2 && u64::from(sp.cert_index_bignum()) == v3);
+                fg(pa);
             }
             fg(a);
         }
@@ -154,7 +172,7 @@ pub fn strict_parse_short<S: Src>(s: &mut S) {
     vcover!(!exp && len == 30 && buf[0] >> 4 == 6, "enterprise with trailing byte rejected");
 }
 
-/// base addresses (57 bytes) with 0..3 trailing bytes, strict parser
+/// base addresses (57 bytes) with up to 3 missing or trailing bytes, strict parser
 pub fn strict_parse_base<S: Src>(s: &mut S) {
     let buf: [u8; 60] = s.bytes();
     let len = s.below(61) as usize;
@@ -163,28 +181,21 @@ pub fn strict_parse_base<S: Src>(s: &mut S) {
     let data = vec_upto(&buf, len);
     let r = Address::from_bytes(data);
     match r {
-        Ok(a) => {
-            assert!(len == 57);
-            let ba = BaseAddress::from_address(&a).unwrap();
-            assert!(ba.network_id() == buf[0] & 0x0f);
-            assert!(ba.payment_cred().has_script_hash() == (buf[0] & 0x10 != 0));
-            assert!(ba.stake_cred().has_script_hash() == (buf[0] & 0x20 != 0));
-            let b = a.to_bytes();
-            assert!(b.len() == 57 && b[0] == buf[0] && b[1] == buf[1] && b[28] == buf[28] && b[29] == buf[29] && b[56] == buf[56]);
-            fg(a); fg(ba);
-        }
+        Ok(a) => { assert!(len == 57); check_against_bytes(&a, &buf); fg(a); }
         Err(e) => { assert!(len != 57); fg(e); }
     }
+    vcover!(len == 57, "accepted");
+    vcover!(len == 58, "trailing byte");
 }
 
-/// embedded (lenient) parser: `Address::deserialize` as used inside outputs. For every byte string
-/// of length <= 34 carried in a CBOR bytes item the decoder returns an address whose to_bytes() is the
-/// carried string verbatim.
+/// embedded (lenient) parser: `Address::deserialize` as used inside outputs. For every byte string of length
+/// <= 34 carried in a CBOR bytes item the decoder returns either the strictly valid address the bytes denote,
+/// or a malformed address that keeps the carried bytes verbatim. (Together with the encode harnesses this is
+/// "to_bytes() returns the carried string".)
 pub fn embedded_verbatim_short<S: Src>(s: &mut S) {
     let buf: [u8; 34] = s.bytes();
     let len = s.below(35) as usize;
     s.assume(len == 0 || buf[0] >> 4 != 8);
-    // CBOR: bytes head (len < 24 -> 1 byte, else 0x58 len)
     let mut w = [0u8; 36];
     let off = if len < 24 { w[0] = 0x40 | len as u8; 1 } else { w[0] = 0x58; w[1] = len as u8; 2 };
     let mut i = 0;
@@ -192,12 +203,17 @@ pub fn embedded_verbatim_short<S: Src>(s: &mut S) {
     let data = vec_upto(&w, off + len);
     let r = crate::csl::from_bytes::<Address>(&data);
     let a = r.unwrap();
-    let b = a.to_bytes();
-    assert!(b.len() == len);
-    let mut i = 0;
-    while i < len { assert!(b[i] == buf[i]); i += 1; }
     let strict_ok = match ref_addr_end(&buf[..len]) { Some(e) => e == len, None => false };
-    assert!(a.is_malformed() == !strict_ok);
+    if strict_ok {
+        check_against_bytes(&a, &buf);
+    } else {
+        let m = MalformedAddress::from_address(&a).unwrap();
+        let ob = m.original_bytes();
+        assert!(ob.len() == len);
+        let mut i = 0;
+        while i < len { assert!(ob[i] == buf[i]); i += 1; }
+        fg(m);
+    }
     vcover!(len == 0, "empty embedded address");
     vcover!(len == 30 && buf[0] >> 4 == 6, "enterprise + 1 trailing byte");
     vcover!(strict_ok && buf[0] >> 4 == 14, "valid reward embedded");
